@@ -39,18 +39,18 @@ contract(O + "Destinations.send", props=["C08", "C12", "C07", "C13"],
                    ("current-rep-ok", "implies(curact() is not None, rep_ok(typed(curact(), 'Action')))"),
                    ("message-private", "ref(message) != ref(self._globalFields) and "
                     "forall(lambda a: box(message) != a._identification and box(message) != a._successFields, 'ref:obj')")],
-         modifies=LOGGING_FRAME + ["dict(message)", "field:$uuid_str", "field:$seq", "field:$dom", "field:$map"],
+         modifies=LOGGING_FRAME + ["dict(message)", "field:$uuid_str"],
          loops={0: {"locals": {"NEW": "seqe", "ERRS": "list[sub:Exception]"},
                     "modifies": ["#OFFERS", "#IO", "#NTOP", "seq(ERRS)"],
                     "inv": [("offers-so-far", "OFFERS == old(OFFERS) + NEW and len(NEW) == _i"),
-                            ("each-destination-once-in-order", "proj_a(NEW) == _s[:_i] and all_b(NEW, message) and all_tag(NEW, 'offer')"),
+                            ("each-destination-once-in-order", "proj_a(NEW) == _done and all_b(NEW, message) and all_tag(NEW, 'offer')"),
                             ("current-ok", "cur_ok() and implies(curact() is not None, rep_ok(typed(curact(), 'Action')))"),
                             ("errors-are-the-failures-unless-report", "len(seq(ERRS)) == ite(%s, 0, count_failed(NEW))" % IS_REPORT_MSG),
                             ("errors-are-exceptions", "forall(lambda k: implies(0 <= k and k < len(seq(ERRS)), isinst(seq(ERRS)[k], 'Exception')), 'int')"),
                             ("message-stable", "dict_of(message) == update(old(dict_of(message)), old(dict_of(self._globalFields)))"),
                             ("log-untouched", "LOG == old(LOG) and only_changed('_last_child')")]},
                 1: {"locals": {"NREP": "int", "REP": "seqe", "MORE": "seqe"},
-                    "modifies": LOGGING_FRAME + ["field:$uuid_str", "field:$seq", "field:$dom", "field:$map"],
+                    "modifies": LOGGING_FRAME + ["field:$uuid_str"],
                     "inv": [("one-report-per-processed-failure", "NREP == _i and LOG == old(LOG) + REP and all_reports(REP)"),
                             ("offers-of-reports-follow", "OFFERS == old(OFFERS) + NEW + MORE"),
                             ("current-ok", "cur_ok() and implies(curact() is not None, rep_ok(typed(curact(), 'Action')))"),
@@ -61,5 +61,31 @@ contract(O + "Destinations.send", props=["C08", "C12", "C07", "C13"],
                    "OFFERS == old(OFFERS) + NEW + MORE and proj_a(NEW) == old(seq(self._destinations)) and all_b(NEW, message) and all_tag(NEW, 'offer')", ["C08"]),
                   ("one-report-per-failure-none-for-reports", "NREP == ite(%s, 0, count_failed(NEW)) and LOG == old(LOG) + REP and all_reports(REP)" % IS_REPORT_MSG, ["C08"]),
                   ("global-fields-merged", "dict_of(message) == update(old(dict_of(message)), old(dict_of(self._globalFields)))", ["C12"]),
+                  ("positions-only-in-current-action", "only_changed('_last_child', curact())"),
+                  ("current-ok", "cur_ok()")])
+
+contract(O + "_safe_unicode_dictionary", props=["C07", "C08", "C13"], types={"dictionary": "dict"}, returns="str",
+         modifies=["#CALLS", "#NTOP"],
+         ensures=[("calls-grow", "prefix_of(old(CALLS), CALLS)")],
+         notes="total: returns a str whatever the dictionary holds (raises=None)")
+
+contract(O + "Logger.write", props=["C13", "C07", "C08", "C02"],
+         types={"dictionary": "dict", "serializer": "Opt[_MessageSerializer]"}, returns="none",
+         ghost_entry=[("#LOG", "LOG + [write_ev(self, dictionary, serializer)]")],
+         ghosts={"R": "seqe", "RPREV": "seqe", "SENT": "bool", "MSG": "Any", "NEWC": "seqe"}, ghost_defaults={"R": "empty_log()", "RPREV": "empty_log()", "SENT": "False", "NEWC": "empty_log()"},
+         after={"Destinations.send#0": [("R", "REP"), ("SENT", "True"), ("MSG", "box(message)")],
+                "_MessageSerializer.serialize#0": [("NEWC", "NEWC")],
+                "write_traceback#0": [("RPREV", "R")],
+                "log_message#0": [("R", "RPREV + [E] + R")]},
+         requires=[("current-ok", "cur_ok()"),
+                   ("current-rep-ok", "implies(curact() is not None, rep_ok(typed(curact(), 'Action')))"),
+                   ("caller-dictionary-is-not-eliot-internal", "ref(dictionary) != ref(self._destinations._globalFields)")],
+         modifies=["#LOG", "#OFFERS", "#CALLS", "#IO", "#NTOP", "field:_last_child", "field:$uuid_str"],
+         ensures=[("refines-ILogger.write: one-write-then-only-reports", "LOG == old(LOG) + [write_ev(self, dictionary, serializer)] + R and all_reports(R)", ["C13", "C07"]),
+                  ("caller-dictionary-never-modified", "dict_of(dictionary) == old(dict_of(dictionary))", ["C13"]),
+                  ("delivered-iff-serialization-succeeded",
+                   "implies(SENT, fresh(MSG) and implies(serializer is not None, len(NEWC) == card(typed(serializer, '_MessageSerializer').fields)) "
+                   "and implies(serializer is None, dict_of(MSG) == update(old(dict_of(dictionary)), old(dict_of(self._destinations._globalFields)))))", ["C13"]),
+                  ("failure-is-reported-not-delivered", "implies(not SENT, len(R) >= 2 and serializer is not None)", ["C13"]),
                   ("positions-only-in-current-action", "only_changed('_last_child', curact())"),
                   ("current-ok", "cur_ok()")])
